@@ -140,6 +140,8 @@ def one_shot_table(n):
             out.append(util.randrange(n, ent))
         except IndexError:
             out.append(0)
+        except Exception:  # noqa  (any other exception on a chunk of the requested length is reported by the search)
+            out.append(-1000)
         if ent.sizes and set(ent.sizes) != {L}:
             out[-1] = -1 - ent.sizes[0]         # asked for another size: reported by the search
     return L, out
@@ -371,6 +373,8 @@ def check_stream(util, n, s):
         got = util.randrange(n, ent)
     except IndexError:
         got = None
+    except Exception as ex:  # noqa
+        return {"got": "exception " + common.errname(ex) + ": " + str(ex)[:200]}
     L = clen(n)
     if got is not None and not (1 <= got < n):
         return {"got": got, "why": "out of range [1, n-1]"}
@@ -384,8 +388,47 @@ def check_stream(util, n, s):
         return {"got": got, "consumed": ent.off, "expected": want[0], "expected_consumed": want[1], "why": "value is not the first accepted chunk"}
     # replayable, and independent of the unread tail
     ent2 = Replay(s[:want[1]] + bytes(len(s) - want[1]))
-    if util.randrange(n, ent2) != got:
+    try:
+        again = util.randrange(n, ent2)
+    except Exception as ex:  # noqa
+        again = "exception " + common.errname(ex)
+    if again != got:
         return {"got": got, "why": "value depends on bytes that were not consumed"}
+    return None
+
+
+def check_key_nonce(cv, s, dg):
+    """generate a key and sign with it from one script; returns None (property holds), "exhausted" (the
+    script runs dry exactly where the literal reading says it must) or a description of the failure"""
+    from ecdsa import SigningKey
+    n = cv.order
+    pair = lambda r, s_, o: (r, s_)
+    w1 = spec_randrange(n, s)
+    w2 = spec_randrange(n, s[w1[1]:]) if w1 else None
+    ent = Replay(s)
+    try:
+        sk = SigningKey.generate(cv, entropy=ent)
+        d = sk.privkey.secret_multiplier
+        off1 = ent.off
+        e = int.from_bytes(dg, "big")
+        r, sg = sk.sign_digest(dg, entropy=ent, sigencode=pair)
+        k = (e + r * d) * pow(sg, -1, n) % n
+        sig2 = SigningKey.generate(cv, entropy=Replay(s[:off1])).sign_digest(dg, entropy=Replay(s[off1:]), sigencode=pair)
+    except IndexError:
+        if w1 and w2:
+            return {"got": "entropy script exhausted", "requests": ent.sizes, "expected_secret": w1[0], "expected_nonce": w2[0],
+                    "why": "more entropy was requested than the first accepted chunks need"}
+        return "exhausted"
+    except Exception as ex:  # noqa
+        return {"got": "exception " + common.errname(ex) + ": " + str(ex)[:200]}
+    if not (w1 and w2):
+        return {"secret": d, "nonce": k, "why": "every chunk of the script is rejected by rejection sampling for the key or the nonce, yet values were returned"}
+    if (d, off1) != w1 or not 1 <= d < n:
+        return {"secret": d, "consumed": off1, "expected_secret": w1[0], "expected_consumed": w1[1]}
+    if k != w2[0] or ent.off != w1[1] + w2[1] or not 1 <= k < n:
+        return {"nonce": k, "consumed": ent.off, "expected_nonce": w2[0], "expected_consumed": w1[1] + w2[1], "why": "the nonce must come from the bytes after those of the key"}
+    if sig2 != (r, sg):
+        return {"why": "same stream, different signature", "first": [r, sg], "second": list(sig2)}
     return None
 
 
@@ -422,7 +465,7 @@ def search(ctx):
             exp = spec_draw(n, v.to_bytes(L, "big")) or 0
             if k != exp:
                 ctx.violation({"input": {"kind": "one-shot", "order": n, "chunk": v.to_bytes(L, "big").hex()},
-                               "observed": {"returned": k if k >= 0 else "requested %d bytes" % (-1 - k)},
+                               "observed": {"returned": k if k >= 0 else ("an exception other than the script's exhaustion" if k == -1000 else "requested %d bytes" % (-1 - k))},
                                "expected": {"returned": exp, "meaning": "0 = chunk rejected, more entropy requested; uniformity needs exactly %d chunks per target" % const}})
                 break
             cnt[k] = cnt.get(k, 0) + 1
@@ -439,8 +482,8 @@ def search(ctx):
     for cv in cs:
         n = cv.order
         L = clen(n)
-        for rep in range(5):
-            s = bytes(rng.getrandbits(8) for _ in range(8 * L))
+        for rep in range(6):
+            s = bytes(rng.getrandbits(8) for _ in range(40 * L))
             if rep == 1:
                 s = chunk_with_top(n, n - 1, 0) + chunk_with_top(n, (1 << blen(n)) - 1, -1) + s
             elif rep == 2:      # largest key n-1, then largest nonce n-1
@@ -449,28 +492,13 @@ def search(ctx):
                 s = chunk_with_top(n, 0, -1) + chunk_with_top(n, n - 1, -1) + chunk_with_top(n, n, -1) + chunk_with_top(n, n - 3, -1) + s
             elif rep == 4:
                 s = b"\xff" * (2 * L) + chunk_with_top(n, n - 3, 0) + s
-            ent = Replay(s)
-            sk = SigningKey.generate(cv, entropy=ent)
-            d = sk.privkey.secret_multiplier
-            off1 = ent.off
+            elif rep == 5:      # a script that runs dry during the nonce draw: the expected outcome is exhaustion
+                s = chunk_with_top(n, 5, 0) + chunk_with_top(n, n - 1, 0) + b"\x00" * (L - 1)
             dg = hashlib.sha1(b"c17 %d" % rng.getrandbits(32)).digest()[:min(20, cv.baselen)]
-            e = int.from_bytes(dg, "big")
-            r, sg = sk.sign_digest(dg, entropy=ent, sigencode=lambda r, s_, o: (r, s_))
-            k = (e + r * d) * pow(sg, -1, n) % n
-            w1 = spec_randrange(n, s)
-            w2 = spec_randrange(n, s[w1[1]:]) if w1 else None
-            sig2 = SigningKey.generate(cv, entropy=Replay(s[:off1])).sign_digest(dg, entropy=Replay(s[off1:]), sigencode=lambda r, s_, o: (r, s_))
             n_eval += 3
-            obs = None
-            if not (w1 and w2):
-                continue
-            if (d, off1) != w1 or not 1 <= d < n:
-                obs = {"secret": d, "consumed": off1, "expected_secret": w1[0], "expected_consumed": w1[1]}
-            elif k != w2[0] or ent.off != w1[1] + w2[1] or not 1 <= k < n:
-                obs = {"nonce": k, "consumed": ent.off, "expected_nonce": w2[0], "expected_consumed": w1[1] + w2[1], "why": "the nonce must come from the bytes after those of the key"}
-            elif sig2 != (r, sg):
-                obs = {"why": "same stream, different signature", "first": [r, sg], "second": list(sig2)}
-            if obs:
+            obs = check_key_nonce(cv, s, dg)
+            ctx.hist("search.key+nonce", "script exhausted (as expected)" if obs == "exhausted" else ("ok" if obs is None else "violation"))
+            if obs and obs != "exhausted":
                 ctx.violation({"input": {"kind": "key+nonce", "curve": cv.name, "stream": s.hex(), "digest": dg.hex()}, "observed": obs,
                                "expected": "key = first accepted chunk, nonce = first accepted chunk of the rest, same stream gives the same signature"})
     # 4. seed helpers: deterministic, in range, equal to the independent reading
@@ -520,6 +548,10 @@ def replay(rec):
         n = i["order"]
         L, t = one_shot_table(n)
         return sum(1 for k in t if k == i["target"]) != 1 << (8 * L - blen(n))
+    if i["kind"] == "key+nonce":
+        from ecdsa import curves
+        obs = check_key_nonce([c for c in curves.curves if c.name == i["curve"]][0], bytes.fromhex(i["stream"]), bytes.fromhex(i["digest"]))
+        return obs is not None and obs != "exhausted"
     if i["kind"] == "seed":
         import ast
         ref = ref_trytryagain if i["fn"].endswith("trytryagain") else ref_overshoot
